@@ -73,8 +73,8 @@ pub struct Task {
 }
 
 /// the module is shut down at `shutdown_at` (from a message handler) and restarted at `restart_at`; the second
-/// incarnation runs `tasks` (logged as task 100 + index). Both instants lie between the millisecond grid of all
-/// timer deadlines, so nothing completes exactly at them.
+/// incarnation runs `tasks` (logged as task 100 + index). Both instants lie a third of a millisecond off the 0.1 ms
+/// grid of all timer deadlines, so nothing completes exactly at them.
 #[derive(Debug, Clone, Serialize, Deserialize, PartialEq)]
 pub struct Restart {
     pub shutdown_at: u64,
@@ -736,7 +736,8 @@ pub fn gen_case(rng: &mut Rng, max_steps: usize) -> Case {
         let tasks = 1 + rng.usize_below(8);
         if rng.chance(1, 4) {
             // a module that is shut down and restarted while timers are pending (its scripts use no channel feeds)
-            let shutdown_at = (1 + rng.below(3000)) * MS + MS / 2;
+            // a third of a millisecond off the grid: timer deadlines are sums of multiples of 0.1 ms and never coincide with it
+            let shutdown_at = (1 + rng.below(3000)) * MS + 333_333;
             let restart_at = shutdown_at + (1 + rng.below(2000)) * MS;
             mods.push((0..tasks).map(|_| gen_task_with(rng, max_steps, false)).collect());
             let n2 = 1 + rng.usize_below(4);
